@@ -34,6 +34,124 @@ def _isinf(I, args, kw):
     return VBool(False)
 
 
+def _np_asarray(I, args, kw):
+    """numpy.asarray(v, dtype=...) on an opaque vector value: the same abstract vector (the float32 cast is part of
+    the numeric layer that the contracts treat as uninterpreted)."""
+    I.ver.note_assumption("numpy.asarray(v, dtype) returns the same abstract vector value (numerics are uninterpreted)")
+    v = args[0]
+    if isinstance(v, VOpt) and I.spec:
+        return v.val()
+    return I.force(v)
+
+
+def _np_stack(I, args, kw):
+    """numpy.stack(list of vectors, axis=0): an opaque matrix value, a function of the list of (abstract) vectors"""
+    xs = args[0] if I.spec else I.force(args[0])
+    if not isinstance(xs, VSeq):
+        raise Unsupported("numpy.stack of %s" % type(xs).__name__)
+    t = xs.t
+    f = z3.Function("np_stack_" + "".join(c if c.isalnum() else "_" for c in t.name), t.sort(), TUn("NpMat").sort())
+    I.ver.note_assumption("numpy.stack / numpy.mean are uninterpreted functions of their (abstract) arguments")
+    return VUn(f(unwrap(xs, t)), TUn("NpMat"))
+
+
+def _np_mean(I, args, kw):
+    """numpy.mean(matrix, axis=0): an opaque vector (sort Vec), a function of the abstract matrix"""
+    m = args[0] if I.spec else I.force(args[0])
+    if not (isinstance(m, VUn) and m.t.nm == "NpMat"):
+        raise Unsupported("numpy.mean of %s" % type(m).__name__)
+    f = z3.Function("np_mean_axis0", TUn("NpMat").sort(), TUn("Vec").sort())
+    return VUn(f(m.e), TUn("Vec"))
+
+
+def _defaultdict(I, args, kw):
+    """collections.defaultdict(float) / defaultdict(int): an empty dict whose missing keys read as 0 (and are inserted
+    by the read).  The element types come from the declared local type of the variable it is assigned to."""
+    if len(args) != 1 or not isinstance(args[0], VClass) or args[0].name not in ("float", "int"):
+        raise Unsupported("defaultdict with a factory other than float/int")
+    d = VDictRec({})
+    d.default_value = VReal(0) if args[0].name == "float" else VInt(0)
+    return d
+
+
+def _heappush(I, args, kw):
+    """heapq.heappush(h, x): trusted multiset model -- the heap list is kept as a list in *some* order (the heap
+    layout is never observed except through heappop / nsmallest / len): x is added."""
+    h = I.force(args[0])
+    if not isinstance(h, VSeq):
+        raise Unsupported("heappush on %s (declare the heap's element type)" % type(h).__name__)
+    I.ver.note_assumption("heapq: the heap is a multiset kept in a list; heappop removes and returns a minimum "
+                          "(python tuple order), heappush adds, nsmallest(n, h) = the n least in ascending order")
+    h.arr = z3.Store(h.arr, h.n, unwrap(args[1], h.et))
+    h.n = z3.simplify(h.n + 1)
+    h.writeback()
+    return VNone()
+
+
+def _heappop(I, args, kw):
+    """heapq.heappop(h): IndexError on an empty heap; otherwise removes one occurrence of a least element (tuple
+    order) and returns it; every other element stays (named array, pointwise facts with triggers)."""
+    h = I.force(args[0])
+    if not isinstance(h, VSeq):
+        raise Unsupported("heappop on %s" % type(h).__name__)
+    I.require_defined(h.n > 0, "IndexError", "index out of range")
+    p = I.path
+    m = p.fresh("heap_min_at", z3.IntSort())
+    i = z3.Int("hp_i")
+    old, n0 = h.arr, h.n
+    p.assume(z3.And(0 <= m, m < n0))
+    least = h.et.wrap(z3.Select(old, m))
+    el = h.et.wrap(z3.Select(old, i))
+    p.assume(z3.ForAll([i], z3.Implies(z3.And(0 <= i, i < n0), I.lt(least, el, False)), patterns=[z3.Select(old, i)]))
+    res = I.fresh_value(TList(h.et), "heap")
+    p.assume(res.n == n0 - 1)
+    p.assume(z3.ForAll([i], z3.Implies(z3.And(0 <= i, i < res.n),
+                                      z3.Select(res.arr, i) == z3.If(i < m, z3.Select(old, i), z3.Select(old, i + 1))),
+                       patterns=[z3.Select(res.arr, i)]))
+    p.assume(z3.ForAll([i], z3.Implies(z3.And(0 <= i, i < n0, i != m),
+                                      z3.Select(res.arr, z3.If(i < m, i, i - 1)) == z3.Select(old, i)),
+                       patterns=[z3.Select(old, i)]))
+    h.arr, h.n = res.arr, res.n
+    h.writeback()
+    g = getattr(I, "ghost_env", None)
+    if g is not None and "heap_pops" in g.vars:
+        g.vars["heap_pops"] = VInt(to_int(g.vars["heap_pops"]) + 1)     # ghost: number of heappop calls so far
+    return least
+
+
+def _nsmallest(I, args, kw):
+    """heapq.nsmallest(n, h) (no key): the min(max(n, 0), len(h)) least elements in ascending order = a prefix of
+    sorted(h) (trusted sorted() model: stable permutation ordered by python tuple order)"""
+    if kw:
+        raise Unsupported("heapq.nsmallest(key=...)")
+    n = to_int(I.force(args[0]))
+    h = I.force(args[1])
+    if isinstance(h, B.VEmptyList):
+        return h
+    if not isinstance(h, VSeq):
+        raise Unsupported("nsmallest over %s" % type(h).__name__)
+    r = B.sort_seq(I, VSeq(h.arr, h.n, h.et, "list"), None)
+    k = z3.If(n < 0, 0, z3.If(n > r.n, r.n, n))
+    return VSeq(r.arr, z3.simplify(k), r.et, "list")
+
+
+def _heapify(I, args, kw):
+    """heapq.heapify(h): rearranges h in place into heap order -- a no-op in the multiset model (the layout of the
+    list is never observed except through heappop / nsmallest / len)"""
+    h = I.force(args[0])
+    if not isinstance(h, (VSeq, B.VEmptyList)):
+        raise Unsupported("heapify of %s" % type(h).__name__)
+    return VNone()
+
+
+def _timedelta(I, args, kw):
+    """datetime.timedelta(days=, seconds=): a duration in seconds on the real line.  Datetimes are modelled as
+    real numbers (UTC seconds); datetime - timedelta and datetime comparisons are then ordinary arithmetic."""
+    I.ver.note_assumption("datetimes are points on the real time line (UTC seconds); timedelta(days=n) == 86400*n")
+    days = kw.get("days", args[0] if args else VInt(0))
+    secs = kw.get("seconds", args[1] if len(args) > 1 else VInt(0))
+    return VReal(to_real(I.force(days)) * 86400 + to_real(I.force(secs)))
+
 # ---------------------------------------------------------------- process environment / os.path / json / contextvars
 # (added for C16/C10: log writer and staging contracts)
 
@@ -373,6 +491,16 @@ def _deepcopy(I, args, kw):
 
 
 TABLE = {
+    ("numpy", "asarray"): _np_asarray,
+    ("collections", "defaultdict"): _defaultdict,
+    ("heapq", "heappush"): _heappush,
+    ("heapq", "heappop"): _heappop,
+    ("heapq", "nsmallest"): _nsmallest,
+    ("heapq", "heapify"): _heapify,
+    ("numpy", "stack"): _np_stack,
+    ("numpy", "mean"): _np_mean,
+    ("datetime", "timedelta"): _timedelta,
+    ("datetime", "now"): _nondet_real("datetime.now"),
     ("copy", "deepcopy"): _deepcopy,
     ("hashlib", "sha256"): _hashlib_new("sha256"),
     ("concurrent", "ThreadPoolExecutor"): _thread_pool_executor,
@@ -432,6 +560,9 @@ def external_member(ver, modname, attr):
     key = (modname.split(".")[0] if modname else "", attr)
     if key in TABLE and not (modname or "").startswith("os."):
         return VFunc("builtin", "%s.%s" % key, impl=TABLE[key])
+    if key in (("datetime", "datetime"), ("datetime", "timezone")):
+        # class used as a namespace only: datetime.datetime.now(tz) / datetime.timezone.utc
+        return VModule("datetime." + attr, None)
     if key in fsmodel.TABLE:
         return VFunc("builtin", "%s.%s" % key, impl=fsmodel.TABLE[key])
     if key in fsmodel.CONSTS:
